@@ -246,7 +246,7 @@ def repair (b : Basis K) (knots1 : Array K) (mu : ℕ) : Array K :=
     else knots1
   else knots1
 
-/-- the value actually inserted (periodic wrap / range check) -/
+/-- the value actually inserted (periodic wrap / range check): the model's `Basis.insertWrap` -/
 def wrapX [FloorRing K] (b : Basis K) (x0 : K) : PyM K :=
   if b.periodic ≥ 0 then
     if x0 < b.start ∨ x0 > b.stop then
@@ -255,6 +255,8 @@ def wrapX [FloorRing K] (b : Basis K) (x0 : K) : PyM K :=
     else .ok x0
   else if x0 < b.start ∨ b.stop < x0 then .error .value
   else .ok x0
+
+theorem wrapX_eq [FloorRing K] (b : Basis K) (x0 : K) : wrapX b x0 = b.insertWrap x0 := rfl
 
 /-- `IndexError` condition of the middle loop -/
 def idxErr (b : Basis K) (x : K) (mu : ℕ) : Prop :=
@@ -265,8 +267,74 @@ def idxErr (b : Basis K) (x : K) (mu : ℕ) : Prop :=
 instance (b : Basis K) (x : K) (mu : ℕ) : Decidable (idxErr b x mu) := by
   unfold idxErr; infer_instance
 
-/-- `Basis.insertKnot` in terms of the named pieces (definitional). -/
-theorem insertKnot_eq [FloorRing K] (b : Basis K) (x0 : K) :
+/-- the direct algorithm with insertion index `mu`, in terms of the named pieces -/
+def directForm (b : Basis K) (x : K) (mu : ℕ) : PyM (Basis K × Mat K) :=
+  if (b.knots.size : Int) - (b.order : Int) - (b.periodic + 1) < 0 then .error .value
+  else if b.numFunctions = 0 then .error .zeroDiv
+  else if idxErr b x mu then .error .index
+  else .ok ({ b with knots := repair b (Basis.insertAt b.knots mu x) mu },
+            matC b.kn x b.numFunctions b.order mu)
+
+/-- `Basis.insertKnotDirect` in terms of the named pieces (definitional). -/
+theorem insertKnotDirect_eq (b : Basis K) (x : K) :
+    b.insertKnotDirect x = directForm b x (b.insertMu x) := rfl
+
+/-- The condition of the cover branch: periodic with fewer than `p+k` functions. -/
+def coverCond (b : Basis K) : Prop :=
+  b.periodic ≥ 0 ∧ (b.knots.size : Int) - (b.order : Int) - (b.periodic + 1) < (b.order : Int) + b.periodic
+
+instance (b : Basis K) : Decidable (coverCond b) := by unfold coverCond; infer_instance
+
+/-- Outside the cover branch `insert_knot` is wrap + direct algorithm. -/
+theorem insertKnot_eq_plain [FloorRing K] (b : Basis K) (x0 : K) (hg : ¬ coverCond b) :
+    b.insertKnot x0 = b.insertKnotPlain x0 := by
+  unfold Basis.insertKnot Basis.insertKnotPlain
+  cases b.insertWrap x0 with
+  | error e => rfl
+  | ok x =>
+    simp only []
+    rw [if_neg (show ¬ (b.periodic ≥ 0 ∧ (b.knots.size : Int) - (b.order : Int) - (b.periodic + 1)
+      < (b.order : Int) + b.periodic) from hg)]
+
+/-- `Basis.insertKnot` outside the cover branch in terms of the named pieces. -/
+theorem insertKnot_eq_direct [FloorRing K] (b : Basis K) (x0 : K) (hg : ¬ coverCond b) :
+    b.insertKnot x0 =
+      (match wrapX b x0 with
+       | .error e => .error e
+       | .ok x => directForm b x (b.insertMu x)) := by
+  rw [insertKnot_eq_plain b x0 hg]
+  rfl
+
+/-- non-periodic: no cover branch, `mu = bisect_right` -/
+theorem not_coverCond_of_nonperiodic (b : Basis K) (h : b.periodic < 0) : ¬ coverCond b :=
+  fun hc => absurd hc.1 (by omega)
+
+theorem insertMu_nonperiodic (b : Basis K) (h : b.periodic < 0) (x : K) : b.insertMu x = b.bisectR x := by
+  unfold Basis.insertMu; rw [if_neg (by omega)]
+
+/-- guard `p + k ≤ n` (as natural numbers): no cover branch -/
+theorem not_coverCond_of_guard (b : Basis K) (hp : 1 ≤ b.order) (k : ℕ) (hk : b.periodic = (k : Int))
+    (hguard : b.order + k ≤ b.numFunctions) : ¬ coverCond b := by
+  intro hc
+  have h2 := hc.2
+  have e : (b.periodic + 1).toNat = k + 1 := by rw [hk]; omega
+  unfold Basis.numFunctions at hguard
+  rw [e] at hguard
+  rw [hk] at h2
+  omega
+
+/-- the clamp is idle when `bisect_right` does not pass the end index -/
+theorem insertMu_of_le (b : Basis K) (x : K) (h : b.bisectR x ≤ b.knots.size - b.order) :
+    b.insertMu x = b.bisectR x := by
+  unfold Basis.insertMu
+  split_ifs
+  · exact Nat.min_eq_left h
+  · rfl
+
+/-- `Basis.insertKnot` in the form used before the cover branch and the end clamp existed: valid
+    outside the cover branch whenever the clamp is idle. -/
+theorem insertKnot_eq [FloorRing K] (b : Basis K) (x0 : K) (hg : ¬ coverCond b)
+    (hmu : ∀ x, wrapX b x0 = .ok x → b.insertMu x = b.bisectR x) :
     b.insertKnot x0 =
       (match wrapX b x0 with
        | .error e => .error e
@@ -276,7 +344,13 @@ theorem insertKnot_eq [FloorRing K] (b : Basis K) (x0 : K) :
          else if idxErr b x (b.bisectR x) then .error .index
          else .ok ({ b with knots := repair b (Basis.insertAt b.knots (b.bisectR x) x) (b.bisectR x) },
                    matC b.kn x b.numFunctions b.order (b.bisectR x))) := by
-  rfl
+  rw [insertKnot_eq_direct b x0 hg]
+  cases hw : wrapX b x0 with
+  | error e => rfl
+  | ok x =>
+    simp only []
+    rw [hmu x hw]
+    rfl
 
 end C04
 end Splipy
